@@ -53,7 +53,40 @@ def abstract_packages(draw, max_models=8, max_ap=5, min_wav=3, max_wav=12, apdep
             'cube_unc_unit': draw(st.sampled_from(['same', 'same', 'mJy', 'Jy'])),
             # the aperture axis may be STORED in any order (files and cube alike); the abstract description stays ascending
             'ap_storage': draw(st.sampled_from(['asc', 'asc', 'desc', 'shuffled'])),
-            'ap_shuffle': list(draw(st.permutations(list(range(nap)))))}
+            'ap_shuffle': list(draw(st.permutations(list(range(nap))))),
+            # documented per-file layouts: SED files plain or gzip-compressed, directly in seds/ or in sub-directories named
+            # after the first letters of the model name; the parameter table may be parameters.fits.gz
+            'sed_layout': draw(st.sampled_from(['flat', 'flat', 'flat', 'gz', 'sub', 'sub_gz', 'mixed'])),
+            'par_gz': draw(st.integers(0, 4)) == 0}
+
+
+@st.composite
+def with_model_grids(draw, pkg):
+    """some SEDs of a per-file package live on another wavelength grid (other length, or the same length and end points
+    with another interior sampling): the convolver must re-bin the filters for them"""
+    n = len(pkg['names'])
+    # some SEDs of a per-file package live on another wavelength grid (other length or same length)
+    nap = len(pkg['flux'][0])
+    by_model = [None] * n
+    for m in range(n):
+        if draw(st.booleans()):
+            nw2 = draw(st.sampled_from([len(pkg['wav']), len(pkg['wav']) + 2, 3, 7]))
+            w2 = draw(gen.increasing(nw2, pkg['wav'][0] * 0.8, pkg['wav'][-1] * 1.3, 1.02))
+            if draw(st.booleans()):
+                # same number of points and same end points, only the interior sampling differs
+                w = pkg['wav']
+                nw2 = len(w)
+                w2 = [w[0]] + [w[i] + draw(st.floats(-0.45, 0.45, allow_nan=False)) * min(w[i] - w[i - 1], w[i + 1] - w[i])
+                               for i in range(1, nw2 - 1)] + [w[-1]]
+            by_model[m] = w2
+            base = [draw(gen.logfloat(1e-2, 1e3)) for _ in range(nw2)]
+            pkg['flux'][m] = [[base[w] * (1. + 0.37 * ai) * (1. + 0.011 * ((7 * m + 3 * ai + w) % 13)) for w in range(nw2)]
+                              for ai in range(nap)]
+            pkg['err'][m] = [[v * (0.01 + 0.003 * ((m + 2 * ai + 5 * w) % 7)) for w, v in enumerate(row)]
+                             for ai, row in enumerate(pkg['flux'][m])]
+    if any(b is not None for b in by_model):
+        pkg['wav_by_model'] = by_model
+    return pkg
 
 
 @st.composite
@@ -121,7 +154,9 @@ def emit(pkg, model_dir, fmt, file_stems=None):
     elif pkg.get('ap_storage') == 'shuffled':
         aidx = list(pkg['ap_shuffle'])
     stored_aps = None if pkg['apertures'] is None else [pkg['apertures'][a] for a in aidx]
-    pkgio.write_conf(model_dir, pkg['apdep'], pkg['logd_step'], version=None if fmt == 'v1' else 2)
+    layout = pkg.get('sed_layout', 'flat') if fmt == 'v1' else 'flat'
+    pkgio.write_conf(model_dir, pkg['apdep'], pkg['logd_step'], version=None if fmt == 'v1' else 2,
+                     length_subdir=2 if layout.startswith('sub') else 0)
     if fmt == 'v1':
         os.mkdir(os.path.join(model_dir, 'seds'))
         for m, name in enumerate(names):
@@ -148,10 +183,16 @@ def emit(pkg, model_dir, fmt, file_stems=None):
                 efac = [1e-3 if eunit == 'Jy' else 1.] * len(mwav)
             er = [[pkg['err'][m][a][i] * efac[p] for p, i in enumerate(midx)] for a in aidx]
             legacy = unit == 'ergs/cm^2/s'
-            pkgio.write_sed_file(os.path.join(model_dir, 'seds', name + '_sed.fits'), name, mwav, pkgio.wav_to_nu(mwav),
+            sdir = os.path.join(model_dir, 'seds')
+            if layout.startswith('sub'):
+                sdir = os.path.join(sdir, name[:2])
+                if not os.path.isdir(sdir):
+                    os.mkdir(sdir)
+            gz = layout.endswith('gz') or (layout == 'mixed' and m % 2 == 1)
+            pkgio.write_sed_file(os.path.join(sdir, name + '_sed.fits' + ('.gz' if gz else '')), name, mwav, pkgio.wav_to_nu(mwav),
                                  stored_aps, fl, er, flux_unit=unit, err_unit=eunit,
                                  wav_unit='MICRONS' if legacy else 'um', nu_unit='HZ' if legacy else 'Hz')
-        pkgio.write_parameters(model_dir, names, pkg['params'], order=pkg['perm'])
+        pkgio.write_parameters(model_dir, names, pkg['params'], order=pkg['perm'], gz=bool(pkg.get('par_gz')))
     else:
         cfac = 1e-3 if pkg.get('cube_unit', 'mJy') == 'Jy' else 1.
         uunit = pkg.get('cube_unc_unit', 'same')
@@ -164,7 +205,7 @@ def emit(pkg, model_dir, fmt, file_stems=None):
         pkgio.write_cube(os.path.join(model_dir, 'flux.fits'), names, swav, stored_aps, val, unc,
                          dtype=np.float64 if pkg['cube_dtype'] == 'f8' else np.float32,
                          val_unit=pkg.get('cube_unit', 'mJy'), unc_unit=uunit)
-        pkgio.write_parameters(model_dir, names, pkg['params'])   # cube format: same order as the cube
+        pkgio.write_parameters(model_dir, names, pkg['params'], gz=bool(pkg.get('par_gz')))   # cube format: same order as the cube
 
 
 def reference_convolved(pkg, filt, filter_integral_norm=True):
